@@ -38,7 +38,13 @@ Print Assumptions C14_documented_names.
 Theorem C14_unknown_rejected : forall s,
   ~ In (lower s) ["kill_thread"; "kill_process"; "trap"; "errno"; "trace"; "log"; "allow"]%string ->
   action_unpack action_names s = None.
-Proof. intros s H. apply unpack_unknown. exact H. Qed.
+Proof.
+  intros s H. apply unpack_unknown. intro Hin. apply H.
+  assert (Hsub: forallb (fun n => existsb (String.eqb n) ["kill_thread"; "kill_process"; "trap"; "errno"; "trace"; "log"; "allow"]%string)
+                        (names action_names) = true) by (vm_compute; reflexivity).
+  rewrite forallb_forall in Hsub. specialize (Hsub _ Hin). apply existsb_exists in Hsub.
+  destruct Hsub as [x [Hx He]]. apply String.eqb_eq in He. subst. exact Hx.
+Qed.
 Print Assumptions C14_unknown_rejected.
 
 (** parsing the printed form of any named action gives the action back *)
